@@ -44,7 +44,7 @@ PROFILES = {
     "C02": {"w": _p(struct=18, trace_out=7, mk_ce=3, op1=6, opx=5, measure=1, povm=0.5), "clients": (1, 2), "fault_rate": 0.0},
     "C03": {"w": _p(opx=22, op1=6, struct=6, mk_ce=2, measure=1, povm=0.5), "clients": (1, 1), "fault_rate": 0.0, "min_envs": 2},
     "C04": {"w": _p(measure=14, op1=10, opx=8, struct=5, povm=1), "clients": (1, 2), "fault_rate": 0.0},
-    "C05": {"w": _p(measure=14, op1=9, opx=8, struct=5, povm=1, fault=2), "clients": (1, 2), "fault_rate": 0.05, "faults": ["use_destroyed"]},
+    "C05": {"w": _p(measure=14, op1=9, opx=8, struct=5, povm=1, fault=2), "clients": (1, 2), "fault_rate": 0.12, "faults": ["use_destroyed"]},
     "C06": {"w": _p(kraus=16, op1=8, opx=7, struct=5, measure=1), "clients": (1, 1), "fault_rate": 0.0},
     "C07": {"w": _p(), "clients": (1, 2), "fault_rate": 0.0, "nonunitary": 0.3},
     "C08": {"w": _p(struct=14, config=3, kraus=5, op1=10, opx=6), "clients": (1, 1), "fault_rate": 0.0, "struct_bias": "level", "no_estimator": True},
@@ -154,6 +154,8 @@ class Gen:
                 scen = rng.choice(SCENARIOS)
             if self.prof.get("optics") and c == 0 and rng.random() < 0.5:
                 scen = rng.choice(["bs2", "mz", "mz"])
+            if self.prof.get("fock_bias") and not self.prof.get("optics") and c == 0 and rng.random() < 0.3:
+                scen = "cancel"
             if scen:
                 q.extend(self._scenario(scen, c))
             n_env = rng.randint(max(1, self.prof.get("min_envs", 1)), 3)
@@ -211,6 +213,17 @@ class Gen:
             q.append(op({"t": "X.BS", "eta": round(PI / 4, 9)}, "ce", [fa, fb], ce=ce["name"]))
             q.append({"do": "measure", "entry": "ce", "ce": ce["name"], "on": [fa], "sep": True, "destr": True, "client": c, "mz": {"phi": phi, "port": 1}})
             q.append({"do": "measure", "entry": "ce", "ce": ce["name"], "on": [fb], "sep": True, "destr": True, "client": c, "mz": {"phi": phi, "port": 2, "after": fa}})
+        elif scen == "cancel":
+            # amplitudes of opposite sign on the partner: |n>(|H> - |V>)/sqrt2 in ONE product space, where
+            # "sum of amplitudes" short cuts (support checks, marginals) cancel exactly
+            a, b = self._new_env(c, fock=rng.choice([1, 2, 3]), pol="V"), self._new_env(c)
+            a["dims"] = a["fock"] + rng.choice([1, 2])
+            ce = self._new_ce(c, [a["name"], b["name"]])
+            q += [a, b, ce]
+            q.append(op({"t": "P.H"}, "state", [a["name"] + ".p"]))
+            q.append({"do": "ce.combine", "ce": ce["name"], "on": [a["name"] + ".f", a["name"] + ".p"], "client": c})
+            if rng.random() < 0.5:
+                q.append({"do": "fault", "kind": "shrink_below_support", "on": [a["name"] + ".f"], "entry": rng.choice(["state", "ce"]), "ce": ce["name"], "below": 0, "client": c})
         elif scen == "envcomb":
             a, b = self._new_env(c), self._new_env(c)
             q += [a, b]
@@ -906,4 +919,4 @@ class Gen:
         return None
 
 
-SCENARIOS = ["bell", "ghz", "bs2", "mz", "envcomb", "two_ps", "merged", "mixed_custom"]
+SCENARIOS = ["bell", "ghz", "bs2", "mz", "envcomb", "two_ps", "merged", "mixed_custom", "cancel"]
